@@ -60,6 +60,11 @@ def message(seed, name, peer, idx):
         return (b"addr", b"\x01" + f("addr", 30))
     if name == "unknown":
         return (b"foo%d%d" % (peer, idx), f("unk", 3))
+    if name == "biginv":
+        # 2000 inventory entries: 72 003 bytes (a payload above 64 KiB - the size class of blocks and large batches)
+        n = 2000
+        return (b"inv", b"\xfd" + n.to_bytes(2, "little") + b"".join((1).to_bytes(4, "little") + bytes([peer, idx]) + (j * 2654435761 % 2 ** 240).to_bytes(30, "big")
+                                                                       for j in range(n)))
     raise KeyError(name)
 
 
@@ -81,6 +86,11 @@ class PeerSock:
         d = self.stream[self.off:self.off + (k if self.chunk is None else min(k, self.chunk))]
         self.off += len(d)
         return d
+
+    def recv_into(self, buf, nbytes=0, *a):
+        d = self.recv(nbytes or len(buf))
+        buf[:len(d)] = d
+        return len(d)
 
     def sendall(self, b):
         self.sent.append(bytes(b))
@@ -107,7 +117,12 @@ def _opc_recv_loop(code):
     return code.co_filename.endswith("bits/p2p.py") and code.co_name == "recv_loop"
 
 
-WANT = {None: _want_all, "all": _want_all, "node": _want_node, "mid": _want_mid}
+def _want_recv(code):
+    """Node.* frames and recv_msg, but not the payload parsers (a 2000-entry payload is parsed by ~10^4 lines that touch locals only)"""
+    return code.co_filename.endswith("bits/p2p.py") and (getattr(code, "co_qualname", "").startswith("Node.") or code.co_name == "recv_msg")
+
+
+WANT = {None: _want_all, "all": _want_all, "node": _want_node, "mid": _want_mid, "recv": _want_recv}
 
 _GN = None
 
@@ -285,6 +300,10 @@ def jobs(tier, seed):
     for a, b in ([("ping", "inv"), ("version", "unknown")] if tier == "quick" else list(itertools.product(core, repeat=2))):
         for ch in ((11,) if tier == "quick" else (11, 5)):
             js.append({"name": f"2x1-mid-frag{ch}/{a}|{b}", "script": [[a], [b]], "scope": "mid", "chunk": ch, "weight": 14})
+    # two peers each delivering a payload above 64 KiB in two or three pieces (Node frames only: the parsing of 2000 entries is not
+    # a scheduling matter), and one such peer next to an ordinary one
+    for a, b in ((["biginv"], ["biginv"]), (["biginv", "ping"], ["inv"])):
+        js.append({"name": f"2x-big-node-frag40000/{'+'.join(a)}|{'+'.join(b)}", "script": [a, b], "scope": "recv", "chunk": 40000, "bound": 1, "nocache": True, "weight": 12})
     names3 = ["ping", "inv", "unknown"] if tier == "quick" else ["ping", "version", "inv", "unknown"]
     triples = list(itertools.product(names3, repeat=3))
     if tier == "quick":
